@@ -161,6 +161,31 @@ func propC07(c *Ctx, r *Report) {
 		}
 	}
 
+	// the averages do not depend on the era: the consumer (Convert) applies the PIP-10 gate with the executing height
+	r.rule("C07-R3/averages-era-free", 1, "GetPegNetRateAverages reads no activation constant")
+	{
+		g := c.fn("node.Pegnetd.GetPegNetRateAverages")
+		var bad []string
+		for f := range c.reach(g) {
+			if f != g && f.Parent() != g {
+				continue
+			}
+			allInstrs(f, func(ins ssa.Instruction) {
+				if u, ok := ins.(*ssa.UnOp); ok {
+					if gl, ok := u.X.(*ssa.Global); ok && gl.Pkg.Pkg.Name() == "config" {
+						bad = append(bad, fmt.Sprintf("%s reads config.%s at %s", fname(f), gl.Name(), c.ipos(ins)))
+					}
+				}
+			})
+		}
+		r.check(len(bad) == 0, "C07-R3/averages-era-free", "GetPegNetRateAverages", c.pos(g.Pos()), "", strings.Join(bad, "; ")+": the averages are requested for the previous rated height while Convert gates PIP-10 on the executing height, so an era test inside the averages makes the first block after an activation see empty averages")
+	}
+
+	r.rule("C07-R3/no-carried-state", 1, "the holding executor's window and rates come from the database")
+	ruleNoCarriedReads(c, newSharedAnalysis(c), r, "C07-R3/no-carried-state", reachOf(c, "node.Pegnetd.ApplyTransactionBatchesInHolding"), carriedAllowedAverages, "the holding executor")
+	// winners gate execution (shared with C12)
+	winnerTable(c, r, e, "C07-R2/winners-gate-execution")
+
 	// R4 Convert decision table
 	r.rule("C07-R4/convert-table", 18, "which rates reach the multiplication and the division")
 	cv := c.fn("conversions.Convert")
